@@ -509,6 +509,15 @@ func builtinModels() map[string]modelFn {
 	}
 	m["math.Abs"] = b1(func(a T) T { return Ite(Ge(a, T{"0.0", SReal}), a, mk(SReal, "-", a)) })
 	m["math.Floor"] = b1(func(a T) T { return mk(SReal, "to_real", mk(SInt, "to_int", a)) })
+	// floor(x) = to_int(x) in SMT-LIB; ceil(x) = -floor(-x); trunc rounds toward zero; round is half away from zero
+	flo := func(a T) T { return mk(SReal, "to_real", mk(SInt, "to_int", a)) }
+	neg := func(a T) T { return mk(SReal, "-", a) }
+	m["math.Ceil"] = b1(func(a T) T { return neg(flo(neg(a))) })
+	m["math.Trunc"] = b1(func(a T) T { return Ite(Ge(a, T{"0.0", SReal}), flo(a), neg(flo(neg(a)))) })
+	m["math.Round"] = b1(func(a T) T {
+		half := T{"0.5", SReal}
+		return Ite(Ge(a, T{"0.0", SReal}), flo(Add(a, half)), neg(flo(Add(neg(a), half))))
+	})
 	m["math.Max"] = b2(func(a, b T) T { return Ite(Ge(a, b), a, b) })
 	m["math.Min"] = b2(func(a, b T) T { return Ite(Le(a, b), a, b) })
 	m["math.IsNaN"] = b1(func(a T) T { return TFalse })
@@ -565,7 +574,23 @@ func builtinModels() map[string]modelFn {
 		ex.vc.needStrings()
 		ex.vc.ufun("fn.strings.Repeat", []Sort{SStr, SInt}, SStr)
 		r := mk(SStr, "fn.strings.Repeat", args[0], args[1])
+		ex.vc.assume(st.guard, Eq(mk(SInt, "gs.len", r), Mul(mk(SInt, "gs.len", args[0]), args[1])))
 		return []T{r}
+	}
+	m["strings.Split"] = func(ex *Exec, st *State, args []T, c *ssa.CallCommon) []T {
+		// library facts used by callers that index the result: at least one part; with a non-empty separator
+		// that occurs in s there are at least two parts (n = -1 form)
+		callee := c.StaticCallee()
+		rs := ex.pureCall(st, "strings.Split", callee.Signature, args)
+		ex.vc.assume(st.guard, Ge(slLen(rs[0]), IntLit(1)))
+		if pkg := callee.Pkg; pkg != nil {
+			if cf := pkg.Func("Contains"); cf != nil {
+				cont := ex.pureCall(st, "strings.Contains", cf.Signature, args)
+				ex.vc.assume(st.guard, Imp(And(cont[0], Gt(mk(SInt, "gs.len", args[1]), IntLit(0))), Ge(slLen(rs[0]), IntLit(2))))
+			}
+		}
+		ex.vc.assumed["strings.Split: >= 1 part, >= 2 parts when the non-empty separator occurs"] = true
+		return rs
 	}
 	m["strings.HasSuffix"] = func(ex *Exec, st *State, args []T, c *ssa.CallCommon) []T {
 		s, p := args[0], args[1]
